@@ -388,8 +388,10 @@ def write_evidence(ev):
         jsonschema.validate(ev, schema)
     except Exception as e:
         sys.stderr.write('evidence does not validate: %s\n' % str(e)[:500])
-    os.makedirs(os.path.join(VERIF, 'evidence'), exist_ok=True)
-    with open(os.path.join(VERIF, 'evidence', ev['property_id'] + '.json'), 'w') as f:
+    # VERIF_EVIDENCE_DIR: sensitivity probes against a scratch tree must not overwrite the evidence of /repo
+    edir = os.environ.get('VERIF_EVIDENCE_DIR', os.path.join(VERIF, 'evidence'))
+    os.makedirs(edir, exist_ok=True)
+    with open(os.path.join(edir, ev['property_id'] + '.json'), 'w') as f:
         json.dump(ev, f, indent=1, default=_default)
 
 
